@@ -77,6 +77,18 @@ CHECKS = {
              "obligations of this check when present in the evidence (names glv:*, powersofx:*, loop:*); what is not listed there is not claimed.",
         tech="LLVM-IR symbolic execution with loop cutting (one inductive step from an arbitrary invariant state); QF_BV VCs and integer lemmas in z3; native replay",
         ref="5/C06"),
+    "C07": dict(
+        cat="proof",
+        text="PowersOfX::decompose is executed over affine integer words (QF_LIA, the word divisions by |x| as quotient/remainder variables): for every 256-bit y the "
+             "four digits recombine to y modulo r and each fits 64 bits (dropped quotient words provably zero). Fq12::exponentiate_gt(PowersOfX): the bases are shown "
+             "to be a^(|x|^j) (exponents mod r), and the 64-iteration loop is cut at its header: from an arbitrary state (index, accumulator a^E, flag, invariant "
+             "not found_one => E = 0) with the four bits symbolic, one iteration gives E' = 2E + sum bit_j |x|^j, tests bit position i of each digit, decrements i, "
+             "exits exactly after position 0 - by induction the result is a^(sum c_j |x|^j) = a^k. exponentiate_gt(BigInt) / exponentiate_gt_div / random_gt are "
+             "shown to be decompose resp. PowersOfX::random followed by exponentiate_gt with that same scalar.",
+        note="a of order r (exponent arithmetic mod r; a^q = a^x: T7). square_cyclotomic / inverse: C04. The sampling loop of PowersOfX::random (y uniform in [0,r), digits consistent with y) is obligation "
+             "'powersofx-random' when present in the evidence (shared with C10). 32-bit-word bit-serial division not covered.",
+        tech="LLVM-IR symbolic execution: QF_LIA VCs over affine words for the decomposition; loop cutting with one inductive step (integer VCs in z3) for the exponentiation; call-trace conformance",
+        ref="5/C07"),
     "C08": dict(
         cat="proof",
         text="miller_loop (general and both single-pair overloads), G2Prepared::prepare and the pairing / pairing_product wrappers are executed from the IR with the "
